@@ -496,7 +496,8 @@ pub struct RunArgs {
 
 fn work_dir(id: &str) -> PathBuf {
     let base = std::env::var("FMLV_WORK").unwrap_or_else(|_| format!("{}/.work", verif_root()));
-    PathBuf::from(base).join(id)
+    // unique per run: two runs of the same check (a sweep and a manual run) must not share files
+    PathBuf::from(base).join(format!("{}-{}", id, std::process::id()))
 }
 
 pub fn engine_paths() -> (String, Option<String>) {
